@@ -1,105 +1,8 @@
-(* The function REGENERATED from afkak/partitioner.py (Model/MurmurGen.v, harness/py2coq.py)
-   equals the hand-written model Model.Murmur.pure_murmur2 on every byte list. *)
-From AV Require Import Base.Util Model.Murmur Model.MurmurGen.
-From Coq Require Import Lia ZifyNat.
-Ltac Zify.zify_post_hook ::= Z.to_euclidean_division_equations.
-
-(* ---- arithmetic on the length ---- *)
-Lemma land_lnot3 n : 0 <= n -> Z.land n (Z.lnot 3) = 4 * (n / 4).
-Proof.
-  intro H. rewrite <- Z.ldiff_land. change 3 with (Z.ones 2).
-  rewrite Z.ldiff_ones_r by lia. rewrite Z.shiftl_mul_pow2, Z.shiftr_div_pow2 by lia.
-  change (2 ^ 2) with 4. lia.
-Qed.
-
-Lemma nth_app_off (pre rest : list Z) k : nth (length pre + k) (pre ++ rest) 0 = nth k rest 0.
-Proof. rewrite app_nth2 by lia. f_equal. lia. Qed.
-
-(* ---- the loop ---- *)
-Section Loop.
-  Variable F : Z -> Z -> Z.
-  Variable data : list Z.
-  Hypothesis HF : forall pre b0 b1 b2 b3 rest h p,
-    data = pre ++ b0 :: b1 :: b2 :: b3 :: rest -> length pre = (4 * p)%nat ->
-    F h (Z.of_nat p) = mix_block h b0 b1 b2 b3.
-
-  Lemma loop_blocks : forall q pre rest h p,
-    data = pre ++ rest -> length pre = (4 * p)%nat -> (4 * q <= length rest)%nat ->
-    blocks h rest = blocks (fold_left F (map Z.of_nat (seq p q)) h) (skipn (4 * q) rest).
-  Proof.
-    induction q as [|q IH]; intros pre rest h p Hd Hp Hq.
-    - reflexivity.
-    - destruct rest as [|b0 [|b1 [|b2 [|b3 rest']]]]; cbn [length] in Hq; try lia.
-      cbn [seq map fold_left].
-      rewrite (HF pre b0 b1 b2 b3 rest' h p Hd Hp).
-      replace (4 * S q)%nat with (4 + 4 * q)%nat by lia.
-      change (skipn (4 + 4 * q) (b0 :: b1 :: b2 :: b3 :: rest')) with (skipn (4 * q) rest').
-      change (blocks h (b0 :: b1 :: b2 :: b3 :: rest')) with (blocks (mix_block h b0 b1 b2 b3) rest').
-      apply (IH (pre ++ [b0; b1; b2; b3]) rest' _ (S p)).
-      + rewrite <- app_assoc. exact Hd.
-      + rewrite app_length. cbn [length]. lia.
-      + lia.
-  Qed.
-End Loop.
-
-(* ---- the whole function ---- *)
-Lemma nat_div4 (n : nat) : Z.to_nat (Z.of_nat n / 4) = (n / 4)%nat.
-Proof. change 4 with (Z.of_nat 4). rewrite <- Nat2Z.inj_div. apply Nat2Z.id. Qed.
-
-Lemma tail_len (data : list Z) : let t := skipn (4 * (length data / 4)) data in
-  (length t < 4)%nat /\ Z.of_nat (length data) mod 4 = Z.of_nat (length t).
-Proof.
-  cbv zeta. rewrite skipn_length.
-  pose proof (Nat.div_mod (length data) 4 ltac:(lia)) as E.
-  pose proof (Nat.mod_upper_bound (length data) 4 ltac:(lia)) as B.
-  split; [lia|].
-  replace (length data - 4 * (length data / 4))%nat with (length data mod 4)%nat by lia.
-  change 4 with (Z.of_nat 4). rewrite <- Nat2Z.inj_mod. reflexivity.
-Qed.
-
-Lemma nth_tail (data : list Z) k :
-  nth (Z.to_nat (Z.land (Z.of_nat (length data)) (Z.lnot 3) + Z.of_nat k)) data 0
-  = nth k (skipn (4 * (length data / 4)) data) 0.
-Proof.
-  rewrite land_lnot3 by lia.
-  replace (Z.to_nat (4 * (Z.of_nat (length data) / 4) + Z.of_nat k)) with (4 * (length data / 4) + k)%nat.
-  2:{ rewrite Z2Nat.inj_add by lia. rewrite Z2Nat.inj_mul by lia. rewrite nat_div4, Nat2Z.id. reflexivity. }
-  set (m := (4 * (length data / 4))%nat).
-  rewrite <- (firstn_skipn m data) at 1.
-  assert (Hm : (m <= length data)%nat).
-  { unfold m. pose proof (Nat.div_mod (length data) 4 ltac:(lia)). lia. }
-  replace m with (length (firstn m data)) at 1 by (rewrite firstn_length; lia).
-  apply nth_app_off.
-Qed.
-
-Lemma nth_tail0 (data : list Z) :
-  nth (Z.to_nat (Z.land (Z.of_nat (length data)) (Z.lnot 3))) data 0
-  = nth 0 (skipn (4 * (length data / 4)) data) 0.
-Proof. rewrite <- (nth_tail data 0). f_equal. f_equal. cbn. lia. Qed.
+(* The function translated from afkak/partitioner.py (Model/MurmurGen.v: the committed snapshot of
+   harness/py2coq.py's output for /repo) equals the hand-written model Model.Murmur.pure_murmur2 on every
+   byte list.  The proof is the generic tactic of Proofs/MurmurGenTac.v; the same two lines are instantiated
+   on THIS RUN's translation by harness/murmur_tie.py (coq/Run/out/gen/<id>/). *)
+From AV Require Import Base.Util Model.Murmur Model.MurmurPy Model.MurmurGen Proofs.MurmurGenTac.
 
 Theorem gen_eq_model : forall data, gen_pure_murmur2 data gen_seed = pure_murmur2 data.
-Proof.
-  intro data. unfold gen_pure_murmur2, pure_murmur2, pure_murmur2_seed. cbv zeta.
-  match goal with |- context [fold_left ?f _ _] => set (F := f) end.
-  assert (HF : forall pre b0 b1 b2 b3 rest h p,
-    data = pre ++ b0 :: b1 :: b2 :: b3 :: rest -> length pre = (4 * p)%nat ->
-    F h (Z.of_nat p) = mix_block h b0 b1 b2 b3).
-  { intros pre b0 b1 b2 b3 rest h p Hd Hp. subst F. cbv beta.
-    replace (Z.to_nat (Z.of_nat p * 4 + 0)) with (length pre + 0)%nat by lia.
-    replace (Z.to_nat (Z.of_nat p * 4 + 1)) with (length pre + 1)%nat by lia.
-    replace (Z.to_nat (Z.of_nat p * 4 + 2)) with (length pre + 2)%nat by lia.
-    replace (Z.to_nat (Z.of_nat p * 4 + 3)) with (length pre + 3)%nat by lia.
-    rewrite Hd, !nth_app_off. reflexivity. }
-  rewrite nat_div4.
-  pose proof (loop_blocks F data HF (length data / 4) [] data
-                (Z.lxor gen_seed (Z.of_nat (length data))) 0%nat eq_refl eq_refl) as L.
-  assert (Hq : (4 * (length data / 4) <= length data)%nat)
-    by (pose proof (Nat.div_mod (length data) 4 ltac:(lia)); lia).
-  specialize (L Hq). change SEED with gen_seed. rewrite L. clear L.
-  set (h1 := fold_left F (map Z.of_nat (seq 0 (length data / 4))) (Z.lxor gen_seed (Z.of_nat (length data)))).
-  pose proof (nth_tail data 2) as T2. pose proof (nth_tail data 1) as T1.
-  change (Z.of_nat 2) with 2 in T2. change (Z.of_nat 1) with 1 in T1.
-  rewrite T2, T1, nth_tail0. clear T1 T2.
-  destruct (tail_len data) as [Hl Hm]. rewrite Hm.
-  destruct (skipn (4 * (length data / 4)) data) as [|a [|b [|c [|d t]]]]; cbn [length] in *; try lia; reflexivity.
-Qed.
+Proof. gen_eq_tac. Qed.
